@@ -586,9 +586,9 @@ impl<K: PartialEq + Hash + Eq + 'static + Clone, V: Clone> SmallMap<K, V> {
                 index: 0,
                 len: *len,
             },
-            SmallMapStorage::Large(_map) => {
-                // TODO: Implement iterator support for ZiporaHashMap
-                panic!("Iterator not yet implemented for large maps with ZiporaHashMap")
+            SmallMapStorage::Large(map) => SmallMapIter::Large {
+                remaining: map.len(),
+                iter: Box::new(map.iter()),
             },
         }
     }
@@ -703,8 +703,12 @@ pub enum SmallMapIter<'a, K, V> {
         index: usize,
         len: usize,
     },
-    // Iterator for large maps - temporarily disabled until ZiporaHashMap iterator is implemented
-    // Large(crate::hash_map::Iter<'a, K, V>),
+    /// Iterator for large maps (delegates to the ZiporaHashMap iterator)
+    Large {
+        iter: Box<dyn Iterator<Item = (&'a K, &'a V)> + 'a>,
+        /// Number of entries not yet yielded (keeps `ExactSizeIterator` exact)
+        remaining: usize,
+    },
 }
 
 impl<'a, K, V> Iterator for SmallMapIter<'a, K, V> {
@@ -728,7 +732,13 @@ impl<'a, K, V> Iterator for SmallMapIter<'a, K, V> {
                     None
                 }
             }
-            // SmallMapIter::Large(iter) => iter.next(),
+            SmallMapIter::Large { iter, remaining } => {
+                let item = iter.next();
+                if item.is_some() {
+                    *remaining = remaining.saturating_sub(1);
+                }
+                item
+            }
         }
     }
 
@@ -738,7 +748,7 @@ impl<'a, K, V> Iterator for SmallMapIter<'a, K, V> {
                 let remaining = len - index;
                 (remaining, Some(remaining))
             }
-            // SmallMapIter::Large(iter) => iter.size_hint(),
+            SmallMapIter::Large { remaining, .. } => (*remaining, Some(*remaining)),
         }
     }
 }
